@@ -22,7 +22,7 @@ ASSUMPTIONS = [
 CASES = {"quick": 6400, "thorough": 250000}
 MIN_CASES = {"quick": 1500, "thorough": 4000}
 REQUIRED_CLASSES = ["layout", "algorithm"]
-REQUIRED_COUNTERS = ["layouts_judged", "determinism_checked", "fixed_modules_checked", "centres_checked", "algorithm_runs_judged", "trials_recorded", "selection_checked", "algorithm_runs_after_earlier_queries", "designs_with_movable_modules_that_have_rectangles:algorithm", "designs_with_movable_modules_that_have_rectangles:layout"]
+REQUIRED_COUNTERS = ["layouts_judged", "determinism_checked", "fixed_modules_checked", "centres_checked", "algorithm_runs_judged", "trials_recorded", "selection_checked", "algorithm_runs_after_earlier_queries", "layouts_repeated_with_visualisation", "algorithm_runs_with_visualisation", "designs_with_movable_modules_that_have_rectangles:algorithm", "designs_with_movable_modules_that_have_rectangles:layout"]
 
 _fr = None
 _trials = []
@@ -125,8 +125,8 @@ def generate(rng, tier, i):
     die = {"fam": d["fam"], "W": W, "H": H, "regions": d["regions"], "fixed": {}, "struct": d["struct"], "netlist": {"Modules": mods, "Nets": nets}}
     if i % 4 == 3:
         # half of the runs query the netlist first (wire length, overlap): a legitimate earlier use that must not influence the result
-        return {"cls": "algorithm", "die": die, "max_iter": rng.choice([0, 1, 2, 5, 5]), "query_first": rng.random() < 0.5}
-    return {"cls": "layout", "die": die, "kappa": rng.choice([1.0, 0.4, 1.5, 0.05, 3.0, round(rng.uniform(0.01, 3), 2)]), "max_iter": rng.choice([0, 1, 2, 5, 20])}
+        return {"cls": "algorithm", "die": die, "max_iter": rng.choice([0, 1, 2, 5, 5]), "query_first": rng.random() < 0.5, "visualize": rng.random() < 0.1}
+    return {"visualize": rng.random() < 0.06, "cls": "layout", "die": die, "kappa": rng.choice([1.0, 0.4, 1.5, 0.05, 3.0, round(rng.uniform(0.01, 3), 2)]), "max_iter": rng.choice([0, 1, 2, 5, 20])}
 
 
 def snapshot(die):
@@ -187,7 +187,10 @@ def check(case, ctx):
         if r1[0] is not die:
             ctx.count("returned_other_object")
         judge_layout(ctx, case, before, r1[0], what)
-        ok, r2 = ctx.call(fr._fv_original_layout, die2, case["kappa"], False, None, case["max_iter"])
+        vis = "fv_vis" if case.get("visualize") else None      # producing the frames of an animation must not change the layout
+        if vis:
+            ctx.count("layouts_repeated_with_visualisation")
+        ok, r2 = ctx.call(fr._fv_original_layout, die2, case["kappa"], False, vis, case["max_iter"])
         ctx.count("determinism_checked")
         if not ok or [(m.center.x, m.center.y) for m in r2[0].netlist.modules] != [(m.center.x, m.center.y) for m in r1[0].netlist.modules]:
             ctx.violation("not_deterministic", f"two runs from equal inputs differ :: {what}")
@@ -197,7 +200,9 @@ def check(case, ctx):
         ctx.count("algorithm_runs_after_earlier_queries")
         ctx.call(lambda: (die.netlist.wire_length, fr.total_intersection_area(die), die.netlist.num_rectangles))
     _trials.clear()
-    ok, r = ctx.call(fr.force_algorithm, die, False, None, case["max_iter"])
+    if case.get("visualize"):
+        ctx.count("algorithm_runs_with_visualisation")
+    ok, r = ctx.call(fr.force_algorithm, die, False, "fv_vis" if case.get("visualize") else None, case["max_iter"])
     if not ok:
         ctx.violation("algorithm_raised", f"{type(r).__name__}: {str(r)[:200]} :: {what}")
         return
